@@ -32,6 +32,7 @@ CONSTANTS SDs,        \* shard group durations the policy can be altered to (uni
           NodeCfgs,   \* set of 10*dataNodes + replicaN
           MaxGroups,  \* bound on the number of groups a history creates (incl. deleted ones)
           CreateTimes, TruncTimes, MaxDel,  \* alphabet of the histories: instants of Create / Truncate, bound on deleted groups
+          CreateExtremes,                   \* TRUE: histories also create groups at LO and HI
           MaxBatch,   \* longest batch quantified over by the invariants
           Series,     \* 1..S
           HashCodes,  \* {100*series + 10*n + (FNV64a(canonical key) mod n)} computed by the orchestrator
@@ -195,7 +196,8 @@ Delete(i) ==
   /\ G' = [G EXCEPT ![i].del = TRUE]
   /\ UNCHANGED <<nsh, sd, cfg>>
 
-Next == \/ \E t \in CreateTimes : Create(t)
+HistCreateTimes == CreateTimes \cup (IF CreateExtremes THEN {LO, HI} ELSE {})
+Next == \/ \E t \in HistCreateTimes : Create(t)
         \/ \E d \in SDs : AlterSD(d)
         \/ \E t \in TruncTimes : Truncate(t)
         \/ \E i \in 1..MaxGroups : Delete(i)
